@@ -329,4 +329,7 @@ def jobs(tier):
                        max_validate=30))
     for case in ("angmoms", "kinds", "exponents", "coeffs-rows", "coeffs-cols", "coeffs-1d", "badkind"):
         out.append(job("C12", f"shell-reject[{case}]", M, "h_shell", dict(ncon=1, nexp=2, case=case)))
+    for fn in ("check_angmom_roundtrip", "check_angmom_sti", "check_angmom_negative"):
+        out.append(job("C12", f"crosshair[{fn}]", "harness.ch_contracts", fn,
+                       dict(file="harness/ch_contracts.py", func=fn, timeout=20 if tier == "quick" else 90), kind="crosshair"))
     return out
